@@ -417,7 +417,8 @@ TREE_MUTATIONS = ["unknown_tag", "ext_not_allowed", "ext_existing_term", "requir
                   "unit_gibberish", "value_not_numeric", "value_bad_name_char", "placeholder_not_allowed",
                   "def_undeclared", "def_value_missing", "def_value_extra", "defexpand_altered", "duplicate_tag",
                   "duplicate_group", "taggroup_tag_at_top", "toplevel_group_nested", "definition_in_string",
-                  "unique_twice", "empty_group"]
+                  "unique_twice", "empty_group", "onset_extra_group", "onset_no_def", "offset_with_group",
+                  "duration_two_groups"]
 TEXT_MUTATIONS = ["paren_extra_open", "paren_extra_close", "paren_removed", "paren_wrong_order", "double_comma",
                   "leading_comma", "trailing_comma", "comma_missing_before_group", "comma_missing_after_group",
                   "forbidden_char"]
@@ -503,6 +504,12 @@ def mutated(draw, ann, kinds=None, start=0):
             ok = pl.has["definition"]
         elif k == "unique_twice":
             ok = pl.has["event-context"]
+        elif k in ("onset_extra_group", "offset_with_group"):
+            ok = bool(defs) and pl.has["onset"]
+        elif k == "onset_no_def":
+            ok = pl.has["onset"]
+        elif k == "duration_two_groups":
+            ok = pl.has["duration"] and "topLevelTagGroup" in pl.special("Duration").attrs
         elif k == "paren_removed":
             ok = any(is_group(c) for c in tree) or depth_of(tree) > 0
         elif k == "comma_missing_after_group":
@@ -511,6 +518,8 @@ def mutated(draw, ann, kinds=None, start=0):
             avail.append(k)
     order = (kinds or TREE_MUTATIONS + TEXT_MUTATIONS)
     order = order[start % len(order):] + order[:start % len(order)]
+    if not avail:
+        return {"mutation": None, "expect": None, "tree": tree, "text": None}
     kind = [k for k in order if k in avail][0]     # first applicable kind at or after the pre-drawn start index
     text = None
     expect = None
@@ -659,6 +668,26 @@ def mutated(draw, ann, kinds=None, start=0):
     elif kind == "empty_group":
         _insert_somewhere(draw, tree, make_group([]))
         expect = "TAG_EMPTY"
+    elif kind in ("onset_extra_group", "onset_no_def", "offset_with_group", "duration_two_groups"):
+        extra = [n for n in pl.plain if n.long not in used]
+        g1 = make_group([make_tag(extra[0].short, tag_id(extra[0]), node=extra[0].long, kind="plain")])
+        g2 = make_group([make_tag(extra[1].short, tag_id(extra[1]), node=extra[1].long, kind="plain")])
+        if kind == "duration_two_groups":
+            members = [make_tag("Duration/7 s", "duration/7 s", kind="duration"), g1, g2]
+        elif kind == "onset_no_def":
+            members = [make_tag("Onset", "onset", kind="temporal"), g1]
+        else:
+            taken = {t.get("name") for t in flatten(tree) if t.get("kind") == "def"}
+            d = pick(defs)
+            val = def_value_for(draw, d, pl) if d["takes"] else None
+            ref = d["name"] + (f"/{val}" if val is not None else "")
+            marker = "Onset" if kind == "onset_extra_group" else "Offset"
+            members = [make_tag(marker, marker.casefold(), kind="temporal"),
+                       make_tag(f"Def/{ref}", "def/" + ref.casefold(), kind="def", name=d["name"]), g1]
+            if kind == "onset_extra_group":
+                members.append(g2)
+        tree.insert(draw(st.integers(0, len(tree))), make_group(draw(st.permutations(members)), sealed=True))
+        expect = "TEMPORAL_TAG_ERROR"
     else:
         base = render(tree)
         # token boundaries: positions just before/after delimiters, and string ends (never inside a tag)
@@ -706,3 +735,52 @@ def mutated(draw, ann, kinds=None, start=0):
             text = base[:p] + ch + base[p:]
             expect = "TILDES_UNSUPPORTED" if ch == "~" else "CHARACTER_INVALID"
     return {"mutation": kind, "expect": expect, "tree": tree if text is None else None, "text": text}
+
+
+# ---------------------------------------------------------------------------------------------------------------
+# meaning-preserving rewrites (C04): re-spelling, spacing, sibling order
+def split_name(t, m):
+    """Split a generated tag text into (node, name_text, rest) or None for tags that are not re-spellable."""
+    if t.get("kind") == "bad":
+        return None
+    if t.get("node"):
+        node = m.by_long[t["node"].casefold()]
+    else:
+        first = t["t"].split("/")[0]
+        lst = m.by_short.get(first.casefold())
+        if not lst:
+            return None
+        node = lst[0]
+    best = None
+    low = t["t"].casefold()
+    for sp in m.suffix_paths(node):
+        if low.startswith(sp.casefold()) and (len(low) == len(sp) or low[len(sp)] == "/"):
+            if best is None or len(sp) > best:
+                best = len(sp)
+    if best is None:
+        return None
+    return node, t["t"][:best], t["t"][best:]
+
+
+@st.composite
+def rewritten(draw, tree, version):
+    """Return (new_tree, text): tags re-spelled, siblings permuted, blanks changed."""
+    import copy
+    m = pool(version).m
+    new = copy.deepcopy(tree)
+
+    def walk(children):
+        for c in children:
+            if is_group(c):
+                walk(c["g"])
+            elif draw(st.booleans()):
+                sn = split_name(c, m)
+                if sn is not None:
+                    node, _, rest = sn
+                    c["t"] = spelled(draw, node, m) + rest
+        if len(children) > 1 and draw(st.booleans()):
+            perm = draw(st.permutations(list(range(len(children)))))
+            children[:] = [children[i] for i in perm]
+    walk(new)
+    text = draw(render_spaced(new))
+    return new, text
